@@ -120,6 +120,72 @@ struct Extra<QXmppPubSubSubscription> {
     }
 };
 template<>
+struct Extra<QXmppJingleIq::Content> {
+    // a content is only written with creator and name; description and transport only when they have a type / candidates
+    static void add(States<QXmppJingleIq::Content> &v)
+    {
+        using C = QXmppJingleIq::Content;
+        auto base = [](C &c) {
+            c.setCreator(u"initiator"_s);
+            c.setName(u"voice"_s);
+            QXmppJingleDescription d;
+            d.setType(u"urn:xmpp:jingle:apps:rtp:1"_s);
+            d.setMedia(u"audio"_s);
+            c.setDescription(d);
+        };
+        v.push_back({ u"rtp"_s, base });
+        v.push_back({ u"rtp+candidate"_s, [base](C &c) {
+                         base(c);
+                         QXmppJingleCandidate cand;
+                         cand.setComponent(1);
+                         cand.setFoundation(u"1"_s);
+                         cand.setHost(QHostAddress(u"192.0.2.7"_s));
+                         cand.setPort(5000);
+                         cand.setProtocol(u"udp"_s);
+                         cand.setPriority(2130706431);
+                         cand.setId(u"cand1"_s);
+                         cand.setType(QXmppJingleCandidate::HostType);
+                         c.addTransportCandidate(cand);
+                     } });
+        v.push_back({ u"rtp+payload+fingerprint"_s, [base](C &c) {
+                         base(c);
+                         QXmppJinglePayloadType pt;
+                         pt.setId(96);
+                         pt.setName(u"opus"_s);
+                         pt.setClockrate(48000);
+                         c.addPayloadType(pt);
+                         QXmppJingleCandidate cand;
+                         cand.setComponent(1);
+                         cand.setHost(QHostAddress(u"2001:db8::7"_s));
+                         cand.setPort(5002);
+                         cand.setId(u"cand2"_s);
+                         c.addTransportCandidate(cand);
+                         c.setTransportFingerprint(QByteArray::fromHex("0102030405060708090a0b0c0d0e0f1011121314"));
+                         c.setTransportFingerprintHash(u"sha-1"_s);
+                         c.setTransportFingerprintSetup(u"actpass"_s);
+                     } });
+    }
+};
+template<>
+struct Extra<QXmppStanza::Error> {
+    static void add(States<QXmppStanza::Error> &v)
+    {
+        using E = QXmppStanza::Error;
+        v.push_back({ u"cancel-item-not-found"_s, [](E &e) { e.setType(E::Cancel); e.setCondition(E::ItemNotFound); } });
+        v.push_back({ u"modify-gone"_s, [](E &e) { e.setType(E::Modify); e.setCondition(E::Gone); } });
+        v.push_back({ u"wait-policy"_s, [](E &e) { e.setType(E::Wait); e.setCondition(E::PolicyViolation); } });
+        v.push_back({ u"type-only"_s, [](E &e) { e.setType(E::Auth); } });
+    }
+};
+template<>
+struct Extra<QXmppRosterIq::Item> {
+    static void add(States<QXmppRosterIq::Item> &v)
+    {
+        v.push_back({ u"contact"_s, [](QXmppRosterIq::Item &i) { i.setBareJid(u"base@example.org"_s); i.setSubscriptionType(QXmppRosterIq::Item::Both); } });
+        v.push_back({ u"mix-channel"_s, [](QXmppRosterIq::Item &i) { i.setBareJid(u"channel@mix.example.org"_s); i.setIsMixChannel(true); } });
+    }
+};
+template<>
 struct Extra<QXmppRpcResponseIq> {
     static void add(States<QXmppRpcResponseIq> &v)
     {
